@@ -172,9 +172,10 @@ def arp (opcode, sha, spa, tha, tpa):
 
 
 class Frame (object):
-  __slots__ = ("name", "data", "in_port", "want")
+  __slots__ = ("name", "data", "in_port", "want", "defined")
   def __init__ (self, name, data, in_port, **want):
     self.name = name; self.data = data; self.in_port = in_port
+    self.defined = None        # None: every field is defined; else the set of fields the specification defines for this frame
     w = dict(in_port=in_port, dl_vlan=OFP_VLAN_NONE, dl_vlan_pcp=0, nw_tos=0, nw_proto=0, nw_src=0, nw_dst=0,
              tp_src=0, tp_dst=0)
     w.update(want)
@@ -316,11 +317,84 @@ def boundary_frames ():
   ]
 
 
+DL_FIELDS = ("in_port", "dl_src", "dl_dst", "dl_vlan", "dl_vlan_pcp", "dl_type")
+NW_FIELDS = ("nw_tos", "nw_proto", "nw_src", "nw_dst")
+TP_FIELDS = ("tp_src", "tp_dst")
+
+
+def cut_points (frame):
+  """Lengths at which to cut a frame: every header boundary (Ethernet, 802.1Q tag, LLC, SNAP, IP header without and with
+  options, the four port bytes, the whole transport header, ARP) -1, +0, +1; for 802.3 frames every length from no payload
+  at all to one byte past a SNAP header (14..23)."""
+  n = len(frame); cuts = set()
+  et = _u16(frame, 12); off = 14
+  bounds = [14]
+  if et == 0x8100 and n >= 18: et = _u16(frame, 16); off = 18; bounds.append(18)
+  if et < 0x0600:
+    cuts |= set(range(off, off + 10))
+  elif et == 0x0806: bounds.append(off + 28)
+  elif et == 0x0800 and n >= off + 20:
+    ihl = (frame[off] & 15) * 4; proto = frame[off+9]; l4 = off + ihl
+    bounds += [off + 20, l4, l4 + 4]
+    if proto == 6 and n >= l4 + 13: bounds.append(l4 + (frame[l4+12] >> 4) * 4)
+    if proto == 17: bounds.append(l4 + 8)
+  for b in bounds: cuts |= set((b - 1, b, b + 1))
+  return sorted(c for c in cuts if 14 <= c < n)
+
+
+def defined_fields (frame, n):
+  """Fields the specification defines for the first n bytes of a well-formed frame.  The addresses always; the type and
+  the VLAN fields when the bytes that carry them are there (an 802.3 frame without a complete SNAP header has dl_type
+  0x05ff however short it is); network fields only with a complete IP header (options included) / ARP body; transport
+  fields only with a complete transport header (fragments: defined as 0 by the IP header alone).  Everything else -
+  what a switch reports for a header it cannot read - is left open."""
+  d = set(["in_port", "dl_src", "dl_dst"])
+  et = _u16(frame, 12); off = 14
+  if et == 0x8100:
+    if n < 18: return d
+    et = _u16(frame, 16); off = 18
+  d |= set(["dl_vlan", "dl_vlan_pcp", "dl_type"])
+  if et < 0x0600:
+    if n >= off + 8 and frame[off:off+6] == b"\xaa\xaa\x03\0\0\0": et = _u16(frame, off + 6); off += 8
+    else: return d
+  if et == 0x0806 and n >= off + 28: d |= set(["nw_proto", "nw_src", "nw_dst"])
+  if et == 0x0800 and n >= off + 20:
+    ihl = (frame[off] & 15) * 4; proto = frame[off+9]; l4 = off + ihl
+    if n < l4: return d
+    d |= set(NW_FIELDS)
+    fragword = _u16(frame, off + 6)
+    if fragword & 0x3fff: d |= set(TP_FIELDS)
+    elif proto == 1 and n >= l4 + 4: d |= set(TP_FIELDS)
+    elif proto == 17 and n >= l4 + 8: d |= set(TP_FIELDS)
+    elif proto == 6 and n >= l4 + 20 and n >= l4 + (frame[l4+12] >> 4) * 4: d |= set(TP_FIELDS)
+  return d
+
+
+def truncations (frames=None):
+  """Every frame of the corpus (plus the 0x0600 boundary frames) cut at each of its cut_points.  `want` is the parent's
+  hand-written expectation for the fields still defined, except that an 802.3 frame cut inside its SNAP header has dl_type 0x05ff."""
+  if frames is None:
+    frames = corpus() + [f for f in boundary_frames() if f.name in ("eth-0600", "vlan-0600", "len-05dc-snap", "ip-hl6")]
+  out = []
+  for fr in frames:
+    for n in cut_points(fr.data):
+      t = Frame("%s[:%d]" % (fr.name, n), fr.data[:n], fr.in_port)
+      t.defined = defined_fields(fr.data, n)
+      t.want = dict((f, fr.want[f]) for f in t.defined)
+      snap_end = (18 if _u16(fr.data, 12) == 0x8100 else 14) + 8
+      if fr.want["dl_type"] not in (OFP_DL_TYPE_NOT_ETH_TYPE,) and "dl_type" in t.defined and n < snap_end and \
+         _u16(fr.data, snap_end - 10) < 0x0600:
+        t.want["dl_type"] = OFP_DL_TYPE_NOT_ETH_TYPE
+      out.append(t)
+  return out
+
+
 def self_check ():
   """Returns a list of disagreements between the hand-written expectations and extract()."""
   bad = []
-  for fr in corpus() + near_collisions() + boundary_frames():
+  for fr in corpus() + near_collisions() + boundary_frames() + truncations():
     got, app = extract(fr.data, fr.in_port)
+    if fr.defined is not None: got = dict((f, got[f]) for f in fr.defined)
     if got != fr.want:
       bad.append("%s: extract %r, corpus says %r" % (fr.name, sorted((k, v) for k, v in got.items() if fr.want.get(k) != v),
                                                   sorted((k, v) for k, v in fr.want.items() if got.get(k) != v)))
